@@ -23,6 +23,8 @@ type Opts struct {
 	NoDiv       bool
 	ArrayParams bool
 	ScalarParams bool // main parameters are integer scalars only (no bool)
+	Param0       *Type  // fixed type of main's first parameter
+	PoolTypes    []Type // types added to the program's type pool
 }
 
 var widthTable = []int{1, 2, 3, 7, 8, 9, 15, 16, 17, 31, 32, 33, 63, 64, 65, 127, 128, 129, 130}
@@ -51,6 +53,7 @@ type gctx struct {
 	nvar   int
 	budget int
 	ifDepth int
+	pending []*Stmt // statements that must directly follow the last one
 }
 
 func (g *gctx) intn(lo, hi int, label string) int {
@@ -445,6 +448,23 @@ func (g *gctx) expr(T Type, needDyn bool) (*Expr, bool) {
 // rhs builds the right-hand side of an assignment: dynamic, or (outside loops)
 // occasionally a bare literal.
 func (g *gctx) rhs(T Type) (*Expr, bool) {
+	if T.IsInt() && g.chance(22, "common") {
+		// Values that recur: the same small literal or the same
+		// variable assigned on several paths (merges of equal values).
+		if len(g.loops) == 0 && T.N >= 2 && g.chance(50, "commonlit") {
+			return &Expr{Op: ELit, T: T, Val: []string{"0", "1"}[g.intn(0, 1, "commonval")]}, false
+		}
+		var cands []named
+		for _, nv := range g.visible() {
+			if nv.v.T.Equal(T) && nv.v.Dyn {
+				cands = append(cands, nv)
+			}
+		}
+		if len(cands) > 0 {
+			nv := cands[g.intn(0, min(len(cands)-1, 1), "commonvar")]
+			return &Expr{Op: EVar, T: T, Name: nv.name}, true
+		}
+	}
 	if T.IsInt() && len(g.loops) == 0 && g.chance(12, "barelit") {
 		return g.literal(T), false
 	}
@@ -485,7 +505,15 @@ func isScalar(t Type) bool { return t.K == KBool || t.IsInt() }
 // stmt generates one statement; terminated tells that the rest of the block
 // is unreachable (all paths returned).
 func (g *gctx) stmt() (*Stmt, bool) {
+	if len(g.pending) > 0 {
+		st := g.pending[0]
+		g.pending = g.pending[1:]
+		return st, false
+	}
 	g.budget--
+	if g.o.AliasHeavy && len(g.loops) == 0 && g.chance(18, "aliasidiom") {
+		return g.aliasIdiom(), false
+	}
 	k := g.intn(0, 99, "stmt")
 	switch {
 	case k < 14: // var declaration
@@ -517,6 +545,11 @@ func (g *gctx) stmt() (*Stmt, bool) {
 			return g.stmt()
 		}
 		nv := c[g.intn(0, len(c)-1, "target")]
+		if g.ifDepth%100 > 0 && g.chance(50, "firsttarget") {
+			// Inside branches prefer one variable so that several
+			// paths assign the same one.
+			nv = c[len(c)-1]
+		}
 		e, dyn := g.rhs(nv.v.T)
 		nv.v.Dyn = dyn
 		return &Stmt{K: SAssign, Name: nv.name, E: e}, false
@@ -592,6 +625,65 @@ func (g *gctx) stmt() (*Stmt, bool) {
 	}
 }
 
+// aliasIdiom emits the statement sequence
+//
+//	vA := <computed value>        (own wires)
+//	vB := alias(vA)               (cast / constant shift / copy; 1-3 levels)
+//	vC := <another computed value>
+//
+// after which vA is never used again while vB stays visible: the shape in
+// which a wire allocator must not recycle vA's wires although vA is dead.
+func (g *gctx) aliasIdiom() *Stmt {
+	T := g.pickType("idiomtype")
+	a := g.fresh()
+	ea, _ := g.intExpr(T, g.intn(1, g.o.MaxDepth, "idiomdepth"), true)
+	if ea.Op == EVar || ea.Op == ECast {
+		ea = &Expr{Op: EBin, T: T, Name: "+", A: []*Expr{ea, g.dynSource(T)}}
+	}
+	first := &Stmt{K: SDefine, Name: a, E: ea}
+	cur := &Expr{Op: EVar, T: T, Name: a}
+	levels := g.intn(1, 3, "idiomlevels")
+	for l := 0; l < levels; l++ {
+		var e *Expr
+		U := T
+		switch g.intn(0, 2, "idiomalias") {
+		case 0:
+			e = cur
+		case 1:
+			op := "<<"
+			if g.chance(50, "idiomshr") {
+				op = ">>"
+			}
+			e = &Expr{Op: EBin, T: cur.T, Name: op, A: []*Expr{cur,
+				{Op: ELit, T: Uint(32), Val: fmt.Sprint(g.intn(0, cur.T.N-1, "idiomshift"))}}}
+			U = cur.T
+		default:
+			U = g.pickType("idiomcast")
+			e = g.castTo(cur, U)
+		}
+		if l == 0 && e == cur {
+			U = cur.T
+		}
+		name := g.fresh()
+		g.top()[name] = &varInfo{T: e.T, Dyn: true}
+		if g.chance(50, "idiomvar") {
+			Tv := e.T
+			g.pending = append(g.pending, &Stmt{K: SVar, Name: name, T: &Tv, E: e})
+		} else {
+			g.pending = append(g.pending, &Stmt{K: SDefine, Name: name, E: e})
+		}
+		cur = &Expr{Op: EVar, T: e.T, Name: name}
+		_ = U
+	}
+	// vA is not registered in the scope: it is dead after the aliases.
+	c := g.fresh()
+	Tc := g.pickType("idiomtype2")
+	ec, _ := g.intExpr(Tc, g.intn(1, g.o.MaxDepth, "idiomdepth2"), true)
+	g.top()[c] = &varInfo{T: Tc, Dyn: true}
+	g.pending = append(g.pending, &Stmt{K: SDefine, Name: c, E: ec})
+	return first
+}
+
 func (g *gctx) arrayLen() int {
 	if g.o.DynIndex && g.chance(50, "pow2len") {
 		return []int{2, 4, 8}[g.intn(0, 2, "pow2")]
@@ -607,7 +699,7 @@ func (g *gctx) forStmt() *Stmt {
 	g.loops = append(g.loops, loopVar{s.Var, s.Count})
 	g.push()
 	n := g.intn(1, 3, "loopbody")
-	for i := 0; i < n && g.budget > 0; i++ {
+	for i := 0; (i < n && g.budget > 0) || len(g.pending) > 0; i++ {
 		st, _ := g.stmtNoReturn()
 		s.Body = append(s.Body, st)
 	}
@@ -629,7 +721,7 @@ func (g *gctx) block(n int, allowReturn bool) ([]*Stmt, bool) {
 	g.push()
 	defer g.pop()
 	var list []*Stmt
-	for i := 0; i < n && g.budget > 0; i++ {
+	for i := 0; (i < n && g.budget > 0) || len(g.pending) > 0; i++ {
 		st, term := g.stmt()
 		list = append(list, st)
 		if term {
@@ -771,7 +863,7 @@ func (g *gctx) function(f *Func, stmts int) {
 		}
 	}
 	terminated := false
-	for g.budget > 0 {
+	for g.budget > 0 || len(g.pending) > 0 {
 		st, term := g.stmt()
 		f.Body = append(f.Body, st)
 		if term {
@@ -820,6 +912,7 @@ func Draw(t *rapid.T, o Opts) *Prog {
 			g.pool = append(g.pool, Uint(w))
 		}
 	}
+	g.pool = append(g.pool, o.PoolTypes...)
 	if o.Structs && g.chance(55, "hasstruct") {
 		sd := StructDef{Name: "S0"}
 		nf := g.intn(1, 3, "nfields")
@@ -863,6 +956,9 @@ func Draw(t *rapid.T, o Opts) *Prog {
 			T = Array(g.intn(1, 4, "paramarrlen"), g.pickType("paramelem"))
 		} else if i > 0 && !o.ScalarParams && g.chance(10, "boolparam") {
 			T = Bool()
+		}
+		if i == 0 && o.Param0 != nil {
+			T = *o.Param0
 		}
 		main.Params = append(main.Params, Param{Name: fmt.Sprintf("a%d", i), T: T})
 	}
